@@ -2,6 +2,8 @@ import Gallia.Proofs.Lemmas.UdsReqCodec
 import Gallia.Proofs.Lemmas.UdsReqLayout
 import Gallia.Proofs.Lemmas.UdsReqMk
 import Gallia.Gen.C01Registry
+import Gallia.Proofs.Lemmas.UdsClientApi
+import Gallia.Gen.C01Api
 /-
   C01 — UDS requests serialise to the ISO 14229-1 layout and parse back losslessly.
   Property theorems only; helper lemmas are in `Proofs/Lemmas/UdsReq*.lean`.
@@ -11,7 +13,7 @@ import Gallia.Gen.C01Registry
   admissible values are part of `Req.WF`); `encode` is the ISO layout, `decode` the dynamic parser, `mk` construction.
 -/
 namespace Gallia.C01
-open Gallia Gallia.UdsReq
+open Gallia Gallia.UdsReq Gallia.UdsClientApi
 
 /-! ### (T) registry -/
 
@@ -156,6 +158,213 @@ theorem alfidOf_fits (a s : Nat) (ha : minBytes a ≤ 15) (hs : minBytes s ≤ 1
 theorem alfidOf_minimal (a s f : Nat) (hok : AlfidOk f) (hf : Fits f a s) :
     minBytes a ≤ alLen f ∧ minBytes s ≤ slLen f ∧ minBytes a ≤ 15 ∧ minBytes s ≤ 15 := UdsReq.alfidOf_minimal a s f hok hf
 
+
+/-! ### the service-method layer: `UDSClient.<method>(...)` / `ECU.<helper>(...)`
+
+  `denote` is the documented meaning of a call, `bytesOf` the code as written (tables regenerated from the signatures and the
+  AST of client.py / ecu.py, run by the interpreter of `Model/UdsClientApi.lean`). -/
+
+/-- (T) parameter names, their order and their defaults — of every request building method of UDSClient / ECU and of every
+    request class they construct — are the modelled ones: a changed default or parameter breaks this at build time -/
+theorem api_signature_agrees :
+    Gen.C01Api.sigs = UdsClientApi.sigs ∧ Gen.C01Api.classSigs = UdsClientApi.classSigs := by decide +kernel
+
+/-- (T) which class every method body constructs, which expression it passes for which constructor parameter, that a service
+    method does nothing else, which method every helper delegates to with which arguments, and the statements of
+    `ECU.transmit_data` are the modelled ones -/
+theorem api_sites_agree :
+    Gen.C01Api.ctorSites = UdsClientApi.ctorSites ∧ Gen.C01Api.callSites = UdsClientApi.callSites ∧
+    Gen.C01Api.bodies = UdsClientApi.bodies ∧ Gen.C01Api.transmitBody = UdsClientApi.transmitBody := by decide +kernel
+
+/-- (T) method name -> (service id, sub-function) as the live classes have it = the ISO 14229-1 table of the model -/
+theorem api_table_agrees : Gen.C01Api.wire = wireTable := by decide +kernel
+
+/-- the default of `max_block_length` in the signature table is the one `transmitCalls` uses -/
+theorem api_transmit_default :
+    (UdsClientApi.sigs.find? (fun s => s.method = .transmit_data)).map (·.params) =
+      some [⟨.data, none⟩, ⟨.block_length, none⟩, ⟨.max_block_length, some (.int maxBlockLengthDefault)⟩] := by decide +kernel
+
+/-- every denoted request is well-formed ... -/
+theorem denote_wf (c : Call) (r : Req) (h : denote c = .ok r) : r.WF := mk_ok_wf (argsOf c) r h
+
+/-- ... and a call with an argument outside its documented range is refused (never encoded); a call inside is accepted -/
+theorem denote_refuses (c : Call) (h : ¬ InRange (argsOf c)) : denote c = .error .refused := mk_refuses (argsOf c) h
+
+theorem denote_accepts (c : Call) (h : InRange (argsOf c)) : ∃ r, denote c = .ok r ∧ r.WF := by
+  obtain ⟨r, hr, hwf, -⟩ := mk_accepts (argsOf c) h
+  exact ⟨r, hr, hwf⟩
+
+/-- the bytes the code hands to the transport are the ISO layout of the request the documentation says, and the code refuses
+    exactly the calls the documentation puts out of range -/
+theorem call_bytes (c : Call) : bytesOf c = (denote c).map encode := by
+  unfold bytesOf; rw [codeReq_eq_denote]
+
+/-- the bytes of every accepted call parse back to the denoted request: same service, same field values, never degraded to
+    an opaque raw request (`send_raw` is the one method whose request *is* raw) -/
+theorem call_decode (c : Call) (b : Bytes) (h : bytesOf c = .ok b) :
+    ∃ r, denote c = .ok r ∧ r.WF ∧ b = encode r ∧ encode (decode b) = b ∧
+      (c.method ≠ .send_raw → decode b = norm r ∧ (decode b).isRaw = false) := by
+  rw [call_bytes] at h
+  cases hd : denote c with
+  | error e => rw [hd] at h; cases h
+  | ok r =>
+    rw [hd] at h
+    have hb : b = encode r := by cases h; rfl
+    have hwf := denote_wf c r hd
+    refine ⟨r, rfl, hwf, hb, encode_decode b, fun hc => ?_⟩
+    have hraw := denote_not_raw c r hd hc
+    subst hb
+    exact ⟨decode_encode r hwf hraw, decode_encode_ne_raw r hwf hraw⟩
+
+/-- the sub-function byte carries the suppressPosRspMsgIndicationBit iff the caller asked for it (leaving the argument out
+    = not asked) -/
+theorem call_suppress_bit (c : Call) (r : Req) (s : Option Bool) (h : denote c = .ok r) (hs : c.supArg = some s) :
+    ∃ b : UInt8, (encode r)[1]? = some b ∧ (0x80 ≤ b.toNat ↔ s = some true) := by
+  obtain ⟨sf, hsf⟩ := denote_subfn_sup c r s h hs
+  obtain ⟨b, hb, -, -, hiff⟩ := encode_subfn_suppress r (denote_wf c r h) sf (s.getD false) hsf
+  refine ⟨b, hb, hiff.trans ?_⟩
+  cases s with
+  | none => simp
+  | some v => simp
+
+/-- ... and a method without a `suppress_response` parameter (transfer_data, read_data_by_identifier, ECU.ping, ECU.set_session,
+    ECU.read_dtc, ...) never sets the bit -/
+theorem call_no_suppress_unasked (c : Call) (r : Req) (sf : Nat) (sup : Bool) (h : denote c = .ok r) (hs : c.supArg = none)
+    (hr : subfn r = some (sf, sup)) : ∃ b : UInt8, (encode r)[1]? = some b ∧ b.toNat = sf := by
+  have hsup := denote_subfn_nosup c r sf sup h hs hr
+  subst hsup
+  obtain ⟨b, hb, hv, -, -⟩ := encode_subfn_suppress r (denote_wf c r h) sf false hr
+  exact ⟨b, hb, by simpa using hv⟩
+
+/-- the method name fixes the service and, for the convenience methods, exactly the sub-function the name says
+    (`wireTable`, equal to the live classes' SERVICE_ID / SUB_FUNCTION_ID by `api_table_agrees`) -/
+theorem call_fixed_subfn (c : Call) (r : Req) (sid : Nat) (sf : Option Nat) (h : denote c = .ok r)
+    (hw : wireOf c.method = some (some sid, sf)) :
+    (encode r).head? = some (UInt8.ofNat sid) ∧
+    ∀ f, sf = some f → ∃ b : UInt8, (encode r)[1]? = some b ∧ b.toNat % 0x80 = f := by
+  have hsh := denote_shape c r h
+  have hwf := denote_wf c r h
+  have key : ∀ (f : Nat) (sup : Bool), subfn r = some (f, sup) → ∃ b : UInt8, (encode r)[1]? = some b ∧ b.toNat % 0x80 = f := by
+    intro f sup hs
+    obtain ⟨b, hb, -, hm, -⟩ := encode_subfn_suppress r hwf f sup hs
+    exact ⟨b, hb, hm⟩
+  cases c <;> simp [wireOf, wireTable, Call.method, Call.py] at hw <;> obtain ⟨rfl, rfl⟩ := hw
+  case report_dtc_extended_data_record_by_dtc_number d n s =>
+    cases d <;> simp only [argsOf, Shape] at hsh <;> subst hsh <;>
+      exact ⟨rfl, fun f hf => by cases hf; exact key _ _ rfl⟩
+  case clear_dynamically_defined_data_identifier d s =>
+    simp only [argsOf, Shape] at hsh; subst hsh
+    cases d <;> exact ⟨rfl, fun f hf => by cases hf; exact key _ _ rfl⟩
+  all_goals
+    simp only [argsOf, Shape] at hsh
+    first
+      | (subst hsh; exact ⟨rfl, fun f hf => by first | (cases hf; exact key _ _ rfl) | cases hf⟩)
+      | (obtain ⟨fb, rfl⟩ := hsh; exact ⟨rfl, fun f hf => by first | (cases hf; exact key _ _ rfl) | cases hf⟩)
+
+/-- identifiers named by a call (dataIdentifier, routineIdentifier, dynamicallyDefinedDataIdentifier; the fixed identifiers of
+    ECU.read_session / read_vin) go out big-endian at the offset ISO 14229-1 gives them -/
+theorem call_ident_be (c : Call) (r : Req) (off : Nat) (d : Int) (h : denote c = .ok r) (hd : c.identArg = some (off, d)) :
+    d.toNat < 65536 ∧ (encode r)[off]? = some (UInt8.ofNat (d.toNat / 256)) ∧
+      (encode r)[off + 1]? = some (UInt8.ofNat (d.toNat % 256)) :=
+  encode_did_be r (denote_wf c r h) off d.toNat (denote_didAt c r off d h hd)
+
+/-- the InputOutputControlByIdentifier convenience methods put exactly the inputOutputControlParameter their name says
+    (returnControlToECU 0, resetToDefault 1, freezeCurrentState 2, shortTermAdjustment 3) behind the dataIdentifier -/
+theorem call_iocbi_parameter (c : Call) (r : Req) (p : Nat) (h : denote c = .ok r) (hp : c.iocbiParam = some p) :
+    (encode r).head? = some 0x2F ∧ (encode r)[3]? = some (UInt8.ofNat p) := by
+  obtain ⟨d, rest, m, rfl⟩ := denote_iocbi_param c r p h hp
+  simp [encode, toBE_two, u8]
+
+/-- leaving an optional argument out = passing its documented default (no suppression, empty record, method 0, computed format
+    byte / size, `use_db` on), for the documented meaning and for the code as written; after `fill` every parameter of the
+    signature is passed explicitly -/
+theorem omitted_equals_default (c : Call) :
+    denote c.fill = denote c ∧ bytesOf c.fill = bytesOf c ∧ c.fill.fill = c.fill ∧
+    (UdsClientApi.sigs.find? (fun s => s.method = c.method)).map (fun s => s.params.map (·.name)) = some (c.fill.py.2.map (·.1)) := by
+  have h1 : denote c.fill = denote c := by unfold denote; rw [argsOf_fill]
+  exact ⟨h1, by rw [call_bytes, call_bytes, h1], fill_fill c, fill_complete c⟩
+
+/-- `ECU.transmit_data`: a block length (after limiting it to `max_block_length`, default 0xFFF) that leaves no room for
+    payload is refused; otherwise the data goes out as TransferData calls followed by one RequestTransferExit -/
+theorem transmit_data_refuses (data : Bytes) (bl : Int) (mbl : Option Int) :
+    (effBlockLength bl mbl < 3 → transmitCalls data bl mbl = .error .refused) ∧
+    (3 ≤ effBlockLength bl mbl → ∃ cs, transmitCalls data bl mbl = .ok cs) ∧
+    effBlockLength bl mbl ≤ bl ∧ effBlockLength bl mbl ≤ mbl.getD 0xFFF := by
+  refine ⟨fun h => ?_, fun h => ?_, ?_, ?_⟩
+  · unfold transmitCalls; simp only; rw [if_pos (by omega)]
+  · unfold transmitCalls; simp only; rw [if_neg (by omega)]; exact ⟨_, rfl⟩
+  · unfold effBlockLength; simp only; split <;> omega
+  · unfold effBlockLength maxBlockLengthDefault; simp only; split <;> omega
+
+/-- `ECU.transmit_data`: the block sequence counter starts at 1 and wraps 0xFF -> 0x00 (block i, 0-based, carries
+    `(i + 1) % 256`), the payload chunks concatenate to the data, every chunk is non-empty and fits the block length in force
+    (service id + counter + payload), every chunk but the last fills it, and RequestTransferExit (no record) comes last -/
+theorem transmit_data_counters (data : Bytes) (bl : Int) (mbl : Option Int) (cs : List Call)
+    (h : transmitCalls data bl mbl = .ok cs) :
+    ∃ chunks : List Bytes,
+      chunks.flatten = data ∧
+      (∀ c ∈ chunks, c ≠ [] ∧ (c.length : Int) + 2 ≤ effBlockLength bl mbl) ∧
+      (∀ i (hi : i + 1 < chunks.length), ((chunks[i]).length : Int) + 2 = effBlockLength bl mbl) ∧
+      cs.length = chunks.length + 1 ∧
+      (∀ i (hi : i < chunks.length), cs[i]? = some (.transfer_data (((i + 1) % 256 : Nat) : Int) (some chunks[i]))) ∧
+      cs[chunks.length]? = some (.request_transfer_exit none) := by
+  unfold transmitCalls at h
+  simp only at h
+  split at h
+  · cases h
+  · rename_i hp
+    have hk : (effBlockLength bl mbl - 2).toNat ≠ 0 := by omega
+    have hcs : cs = transferCalls (chunk (effBlockLength bl mbl - 2).toNat data) 0 ++ [.request_transfer_exit none] := by
+      cases h; rfl
+    refine ⟨chunk (effBlockLength bl mbl - 2).toNat data, chunk_flatten _ hk data, ?_, ?_, ?_, ?_, ?_⟩
+    · intro c hc
+      have := chunk_len _ hk data c hc
+      exact ⟨fun e => by rw [e] at this; simp at this, by omega⟩
+    · intro i hi
+      have := chunk_full _ hk data i hi
+      omega
+    · rw [hcs, List.length_append, transferCalls_length]; rfl
+    · intro i hi
+      rw [hcs, List.getElem?_append_left (by rw [transferCalls_length]; exact hi),
+        List.getElem?_eq_getElem (by rw [transferCalls_length]; exact hi), transferCalls_get _ 0 i hi]
+      simp [counterOf]
+    · rw [hcs, List.getElem?_append_right (by rw [transferCalls_length]; exact Nat.le_refl _), transferCalls_length]
+      simp
+
+/-- ... and each of these calls is accepted: block i goes out as `36 <(i+1) % 256> <chunk>`, the exit as `37` -/
+theorem transmit_data_bytes (i : Nat) (c : Bytes) :
+    bytesOf (.transfer_data (((i + 1) % 256 : Nat) : Int) (some c)) = .ok (0x36 :: UInt8.ofNat ((i + 1) % 256) :: c) ∧
+    bytesOf (.request_transfer_exit none) = .ok [0x37] := by
+  refine ⟨?_, by rw [call_bytes]; rfl⟩
+  rw [call_bytes]
+  have := transfer_data_bytes i c
+  unfold counterOf at this
+  rw [this]; rfl
+
+/-- ... so every PDU `ECU.transmit_data` puts on the wire is accepted by the codec and fits the block length in force -/
+theorem transmit_data_fits (data : Bytes) (bl : Int) (mbl : Option Int) (cs : List Call)
+    (h : transmitCalls data bl mbl = .ok cs) :
+    ∀ c ∈ cs, ∃ b, bytesOf c = .ok b ∧ 1 ≤ b.length ∧ (b.length : Int) ≤ effBlockLength bl mbl := by
+  obtain ⟨chunks, -, hlen, -, hn, hget, hlast⟩ := transmit_data_counters data bl mbl cs h
+  have h3 : 3 ≤ effBlockLength bl mbl := by
+    by_cases h3 : 3 ≤ effBlockLength bl mbl
+    · exact h3
+    · rw [(transmit_data_refuses data bl mbl).1 (by omega)] at h; cases h
+  intro c hc
+  obtain ⟨i, hi, rfl⟩ := List.getElem_of_mem hc
+  by_cases hic : i < chunks.length
+  · have := hget i hic
+    rw [List.getElem?_eq_getElem hi, Option.some.injEq] at this
+    rw [this]
+    refine ⟨_, (transmit_data_bytes i chunks[i]).1, by simp, ?_⟩
+    have := (hlen chunks[i] (List.getElem_mem hic)).2
+    simp only [List.length_cons]; omega
+  · have hie : i = chunks.length := by omega
+    subst hie
+    rw [List.getElem?_eq_getElem hi, Option.some.injEq] at hlast
+    rw [hlast]
+    exact ⟨_, (transmit_data_bytes 0 []).2, by simp, by simp; omega⟩
+
 /-! ### the hypotheses are satisfiable by concrete, non-trivial values -/
 
 example : (Req.defineByMem 0xF300 0x24 [(0x11223344, 0x0102)] true).WF := by decide
@@ -167,5 +376,24 @@ example : mk (.rmba 0x1234 0x10 (some 0x12)) = .ok (.rmba 0x1234 0x10 0x12) := b
 example : encode (.rmba 0x1234 0x10 0x12) = [0x23, 0x12, 0x12, 0x34, 0x10] := by decide +kernel
 example : decode (encode (.defineByMem 0xF300 0x24 [(0x11223344, 0x0102)] true)) = .defineByMem 0xF300 0x24 [(0x11223344, 0x0102)] true := by
   decide +kernel
+
+-- the service-method layer
+example : bytesOf (.read_dtc_information_report_dtc_by_status_mask 0xFF (some true)) = .ok [0x19, 0x82, 0xFF] := rfl
+example : bytesOf (.routine_control_request_routine_results 0x0203 none none) = .ok [0x31, 0x03, 0x02, 0x03] := rfl
+example : bytesOf (.input_output_control_by_identifier_short_term_adjustment 0x1234 [0xAA, 0xBB] (some [0xFF])) =
+    .ok [0x2F, 0x12, 0x34, 0x03, 0xAA, 0xBB, 0xFF] := rfl
+example : bytesOf (.request_download 0x1000 0x20 (some 1) none (some (some 0x12))) = .ok [0x34, 0x10, 0x12, 0x10, 0x00, 0x20] := rfl
+example : bytesOf .read_session = .ok [0x22, 0xF1, 0x86] ∧ bytesOf .read_vin = .ok [0x22, 0xF1, 0x90] ∧
+    bytesOf .clear_dtc = .ok [0x14, 0xFF, 0xFF, 0xFF] ∧ bytesOf .read_dtc = .ok [0x19, 0x02, 0xFF] ∧ bytesOf .ping = .ok [0x3E, 0x00] ∧
+    bytesOf (.set_session 3 none) = .ok [0x10, 0x03] := ⟨rfl, rfl, rfl, rfl, rfl, rfl⟩
+example : denote (.diagnostic_session_control 0x80 none) = .error .refused ∧ denote (.set_session (-1) none) = .error .refused :=
+  ⟨rfl, rfl⟩
+example : (Call.routine_control_start_routine 0x0203 none none).supArg = some none ∧
+    (Call.routine_control_start_routine 0x0203 none none).identArg = some (2, 0x0203) ∧
+    wireOf (Call.routine_control_start_routine 0x0203 none none).method = some (some 0x31, some 1) := by decide +kernel
+example : (Call.request_upload 1 2 none none none).fill = .request_upload 1 2 (some 0) (some 0) (some none) := rfl
+example : ∃ cs, transmitCalls [1, 2, 3, 4, 5] 4 none = .ok cs := (transmit_data_refuses _ _ _).2.1 (by decide)
+example : transmitCalls [1, 2, 3] 2 none = .error .refused ∧ transmitCalls [1, 2, 3] 9 (some 1) = .error .refused := ⟨rfl, rfl⟩
+example : leaveSessionCalls.map bytesOf = [.ok [0x11, 0x01], .ok [0x3E, 0x00], .ok [0x10, 0x01]] := rfl
 
 end Gallia.C01
